@@ -236,6 +236,7 @@ static void hcycle(int with_ctx, size_t cap, size_t len) {
 	KSI_DataHasher *hsr = NULL, *hsr0; KSI_DataHash *h = NULL; KSI_CTX *ctx; int alg = nondet_int(); int res; long live0; unsigned char data[4];
 	size_t len1;
 	g_live = 0; g_evp_live = 0; g_evp_failed = 0; g_evp_final = 0; g_evp_init_may_fail = 1;
+	__CPROVER_assume(alg == KSI_HASHALG_SHA2_256 || alg == 3);      /* stated bound: one supported algorithm, one unsupported id */
 	if (!bin_build(cap, len)) return;
 	ctx = with_ctx ? &g_ctx : NULL;
 	hsr0 = hsr = nondet_bool() ? NULL : (KSI_DataHasher *)data;
@@ -275,6 +276,7 @@ static void hcycle(int with_ctx, size_t cap, size_t len) {
 				"hasher close ok: one reference, imprint length of the algorithm, hasher closed");
 		__CPROVER_assert(IFF(with_ctx && len > 0, g_live == live0) && IMPLIES(with_ctx && len > 0, h == b_parked[len > 0 ? len - 1 : 0]), "hasher close ok: result served from the bin exactly when it is not empty");
 		len1 = (with_ctx && len > 0) ? len - 1 : len;
+		__CPROVER_assert(b_impl_obj.arr_len == len1 && bin_elems_same(len1), "hasher close ok: the bin lost exactly the object handed out");
 		PIN(b_impl_obj.arr_len, len1);
 		res = KSI_DataHasher_close(hsr, NULL);
 		__CPROVER_assert(res == KSI_INVALID_STATE, "hasher close twice: refused");
@@ -282,11 +284,6 @@ static void hcycle(int with_ctx, size_t cap, size_t len) {
 		live0 = g_live;
 		res = KSI_DataHasher_reset(hsr);
 		__CPROVER_assert(res == KSI_OK && hsr->isOpen && g_live == live0 && g_evp_live == 1, "hasher reset: re-opened, digest context reused, nothing allocated");
-		/* close without receiver: the result object must not leak (it is parked or released) */
-		g_alloc_failed = 0;
-		res = KSI_DataHasher_close(hsr, NULL);
-		__CPROVER_assert(IMPLIES(res != KSI_OK, g_alloc_failed > 0), "hasher close (no receiver): fails only with a failed allocation");
-		REACH("hasher close without receiver returns");
 		KSI_free(h);      /* last reference of the first result (KSI_DataHash_free: C19.oom3_hash_free) */
 	}
 	KSI_DataHasher_free(hsr);
